@@ -79,6 +79,8 @@ BEFORE = {
     'S4-C09': "no check reported it; C09.P8u added (update_value / value setter leave no shared storage)",
     'S4-C12': "no check reported it: the symbolic RHS was not a storage object and reshape results were not views; reshape/ravel results now share storage with their source for effect tracking, C12.T3 / C01.R8 cover the RHS vector",
     'S4-C16': "exit 2 (np.squeeze outside the subset); modelled; C16.L4 gets singleton-axis shapes, C16.L9 the documented array forms on meshes with one cell along some axes",
+    'S5-C08': "C08 silent (reported by C03.B3 only); C08.A1 relabels the axes under single-flag periodic configurations too",
+    'S5-C17': "C17 silent (reported by C05.E3u/E5u and C16.L8f); C17.H3 now requires that with a separate direction field no sign test looks at the coefficient field",
     'S5-C03': "no check reported it (C09.P5 only entered apply_BCs with both flags raised); P5 now covers every flag valuation with a stale cache",
     'S5-C12': "as S5-C03 (same change)",
     'S5-C09': "no check reported it (C09.P1 only switched periodic on); P1 now also switches it off",
